@@ -11,7 +11,10 @@ import numpy as np
 
 from .kern_util import call_guard
 
-SAMP_UNIT = 1024
+# sampling rates of the model are integers in units of 2^-20: S1 = 1.0, S2 = 2.0, SH = 0.5 and S1N = 1 + 3.8e-6, a rate
+# NEAR S1 (a clock-drift correction): a nearby value is another value (whatever numpy.isclose thinks)
+SAMP_UNIT = 1 << 20
+S1, S2, SH, S1N = SAMP_UNIT, 2 * SAMP_UNIT, SAMP_UNIT // 2, SAMP_UNIT + 4
 
 
 def _data_tokens():
@@ -74,6 +77,9 @@ def _mk(name):
             return obj
         if name == 'pburg':
             return sp.pburg(x, at['ar'], **kw)
+        if name == 'pburg:AIC':
+            # order selection: the recursion may stop before the requested order
+            return sp.pburg(x, at['ar'], criteria='AIC', **kw)
         if name == 'pyule':
             return sp.pyule(x, at['ar'], **kw)
         if name == 'pcovar':
@@ -101,6 +107,7 @@ for _n, _k, _kw in [
     ('Periodogram', 'fourier', dict(windows=('hann', 'hamming'), detrends=('none', 'mean'), lags=(-1,))),
     ('pcorrelogram', 'fourier', dict(windows=('hamming', 'hann'), detrends=('none',), lags=(4, 6))),
     ('pburg', 'parametric', dict(ar=(2, 3))),
+    ('pburg:AIC', 'parametric', dict(ar=(5, 7))),
     ('pyule', 'parametric', dict(ar=(2, 3))),
     ('pcovar', 'parametric', dict(ar=(2, 3))),
     ('pmodcovar', 'parametric', dict(ar=(2, 3))),
